@@ -21,8 +21,9 @@ def match_obj(groups: dict, name='m', start=0, end=1):
         if g not in groups:
             raise Raised('IndexError')
         return groups[g]
-    return Obj(_name=name, group=group, groupdict=lambda: {k: v for k, v in groups.items() if isinstance(k, str)},
-               start=lambda i=0: start, end=lambda i=0: end)
+    named = lambda default=None: {k: (v if v is not None else default) for k, v in groups.items() if isinstance(k, str)}      # noqa: E731
+    return Obj(_name=name, group=group, groupdict=named, groups=lambda default=None: tuple(named(default).values()),
+               start=lambda i=0: start, end=lambda i=0: end, span=lambda i=0: (start, end))
 
 
 def new_selector(ctx):
